@@ -102,6 +102,28 @@ pub fn put_pres(w: &mut W, ty: Ty, s: &str) {
     }
 }
 
+/// the one line fed to a `Reader` (terminated by LF): status of the item sequence of `records()` and of
+/// `into_records()`: `ok` / `err` (exactly one item) | `n<k>` (k != 1 items) | `panic`
+pub fn reader_status(ty: Ty, line: &str) -> (String, String) {
+    use bed_utils::bed::io::Reader;
+    fn st<B>(v: Result<Vec<std::io::Result<B>>, Box<dyn std::any::Any + Send>>) -> String {
+        match v { Err(_) => "panic".into(), Ok(v) => if v.len() != 1 { format!("n{}", v.len()) } else if v[0].is_ok() { "ok".into() } else { "err".into() } }
+    }
+    fn both<B: std::str::FromStr<Err = ParseError> + BEDLike>(data: &[u8]) -> (String, String) {
+        let a = std::panic::catch_unwind(|| { let mut r = Reader::new(data, None); let v: Vec<std::io::Result<B>> = r.records::<B>().collect(); v });
+        let b = std::panic::catch_unwind(|| Reader::new(data, None).into_records::<B>().collect::<Vec<std::io::Result<B>>>());
+        (st(a), st(b))
+    }
+    let mut data = line.as_bytes().to_vec();
+    data.push(b'\n');
+    match ty {
+        Ty::Gr => both::<GenomicRange>(&data),
+        Ty::Bed(3) => both::<BED<3>>(&data), Ty::Bed(4) => both::<BED<4>>(&data), Ty::Bed(5) => both::<BED<5>>(&data), Ty::Bed(_) => both::<BED<6>>(&data),
+        Ty::NarrowPeak => both::<NarrowPeak>(&data), Ty::BroadPeak => both::<BroadPeak>(&data),
+        Ty::BgInt => both::<BedGraph<i64>>(&data), Ty::BgFloat => both::<BedGraph<f64>>(&data),
+    }
+}
+
 /// parse table: every TAB-separated field of the text with std's f64 parse (bit pattern)
 pub fn put_ptab(w: &mut W, texts: &[&str]) {
     let mut fields: Vec<&str> = vec![];
